@@ -74,8 +74,8 @@ class CG:
 
 
 class CBLDM:
-    def __init__(self, n, runs=1, order='any'):
-        self.n = n; self.runs = runs; self.order = order
+    def __init__(self, n, runs=1, order='any', d=None):
+        self.n = n; self.runs = runs; self.order = order; self.d = d
 
     def setup(self, c):
         idx = item_vars(c, self.n, 0, self.order)
@@ -94,7 +94,8 @@ class CBLDM:
             clk = Clock(c, 'AB'[r])
             with installed(M, clk):
                 try:
-                    res = M.cbldm(prtpy.BinnerKeepingContents(vals.__getitem__), 2, names, time_limit=c.num(l))
+                    kw = {} if self.d is None else {'partition_difference': self.d}
+                    res = M.cbldm(prtpy.BinnerKeepingContents(vals.__getitem__), 2, names, time_limit=c.num(l), **kw)
                 except Exception as e:
                     c.report('exception', '%s: %s' % (type(e).__name__, e)); return
             sums, lists = res
@@ -120,7 +121,10 @@ class CBLDM:
                     c.report('missing-result', 'not interrupted but no partition returned'); return
                 mine = zabs(zs[0] - zs[1])
                 import itertools
-                conj = [mine <= zabs(2 * zsum(xs[i] for i in S) - tot) for r in range(n + 1) for S in itertools.combinations(range(n), r)]
+                dd = n if self.d is None else self.d
+                if abs(len(lists[0]) - len(lists[1])) > dd:
+                    c.report('cardinality-bound', 'bin sizes %d and %d differ by more than %s' % (len(lists[0]), len(lists[1]), dd)); return
+                conj = [mine <= zabs(2 * zsum(xs[i] for i in S) - tot) for r in range(n + 1) if abs(2 * r - n) <= dd for S in itertools.combinations(range(n), r)]
                 c.check('suboptimal-without-interrupt', z3.And(conj), 'not interrupted, yet the two-way difference is not minimal')
         if len(runs) == 2:
             (la, za, fa, ia), (lb, zb, fb, ib) = runs
@@ -182,14 +186,17 @@ def jobs(tier):
         J.append(job('cg', n=4, k=2, obj=o, runs=1)); J.append(job('cg', n=4, k=3, obj=o, runs=1))
         J.append(job('cg', n=2, k=3, obj=o, runs=2))
     J.append(job('cbldm', n=3, runs=2)); J.append(job('cbldm', n=4, runs=1)); J.append(job('cbldm', n=5, runs=1, order='desc'))
+    J.append(job('cbldm', n=5, runs=1, order='desc', d=1)); J.append(job('cbldm', n=4, runs=1, d=1)); J.append(job('cbldm', n=5, runs=1, order='desc', d=2))
+    for o in ('diff', 'max', 'min'):
+        J.append(job('cg', n=5, k=2, obj=o, runs=1, order='desc'))
     for (n, k) in ((3, 2), (4, 2), (4, 3), (2, 3), (3, 1)):
         J.append(job('gen', n=n, k=k))
     J.append(job('gen', n=5, k=2, order='desc'))
     if tier == 'thorough':
         for o in ('diff', 'max', 'min'):
             J.append(job('cg', n=4, k=2, obj=o, runs=2, order='desc')); J.append(job('cg', n=3, k=3, obj=o, runs=2))
-            J.append(job('cg', n=5, k=2, obj=o, runs=1, order='desc'))
-        J.append(job('cbldm', n=4, runs=2, order='desc')); J.append(job('cbldm', n=6, runs=1, order='desc'))
+            J.append(job('cg', n=5, k=3, obj=o, runs=1, order='desc'))
+        J.append(job('cbldm', n=4, runs=2, order='desc')); J.append(job('cbldm', n=6, runs=1, order='desc', d=1)); J.append(job('cbldm', n=6, runs=1, order='desc'))
         J.append(job('gen', n=5, k=3, order='desc'))
     return J
 
